@@ -1,4 +1,19 @@
 fn main() {
+    // `chk-wire --write-seeds <dir>`: (re)generate the golden seed corpora of the fuzz targets
+    let args: Vec<String> = std::env::args().collect();
+    if args.get(1).map(|s| s == "--write-seeds").unwrap_or(false) {
+        let dir = std::path::PathBuf::from(args.get(2).cloned().unwrap_or_else(|| "/verif/fuzz/seeds".into()));
+        match chk_wire::fuzzapi::write_seeds(&dir) {
+            Ok(n) => {
+                println!("{n} seed files written under {}", dir.display());
+                return;
+            }
+            Err(e) => {
+                eprintln!("cannot write seeds: {e}");
+                std::process::exit(2);
+            }
+        }
+    }
     vcore::runner::main(&[
         ("C14", chk_wire::c14::run),
         ("C15", chk_wire::c15::run),
